@@ -3,6 +3,13 @@
 import json, os
 
 CLAIMED = {
+    "C07": ("Coq proof over LReload.v (reload on the lifecycle core) + differential: reloaded oracle vs uninterrupted oracle on the same continuation",
+            "C07_reload_shape / C07_ended_preserved / C07_waiting_requeued: for every reachable state (invariant Inv) save+reload keeps orders, retry bookkeeping and trial files, restores every ended trial "
+            "exactly, restores every unfinished trial from its file with its run counter and queues it; C07_reload_is_requeue: when the algorithm state survives get_state/set_state the reloaded oracle IS the "
+            "uninterrupted one with running trials re-queued, so continuations coincide. Tie: (i) Reload operations inside the C01 correspondence histories (model = code after every reload, four oracle kinds); "
+            "(ii) at a save point of generated histories the directory is copied and reloaded into a fresh oracle, which is compared field by field with the live oracle and then driven through the same continuation: "
+            "identical issued trials for random/grid/Hyperband, valid in-budget trials for Bayesian.",
+            "Trusted: Coq kernel; python harness; 'requeue' applied to the live oracle object is the reference; saving at operation boundaries only (crash points are C08).", "DESIGN.md section 6 C07"),
     "C19": ("Coq proof over Tuner.v (search loop on the lifecycle core, scripted run_trial): log well-formedness, resume theorem, termination bound + differential correspondence with BaseTuner.search",
             "C19_search_log: for every oracle (populate), script and configuration the event log of the loop satisfies check_log (each RUNNING response -> run_trial -> exactly one end_trial with COMPLETED / INVALID / "
             "FAILED mapped from returned / ordinary exception / FailedTrialError; fatal errors and interruptions propagate with no end_trial; IDLE -> ask again; STOPPED -> leave). C19_resume: after an interruption the reloaded "
